@@ -10,7 +10,7 @@ The endpoint interfaces in this module provide endpoint interfaces suitable for
 connecting streams to USB endpoints.
 """
 
-from amaranth       import Elaboratable, Module, Signal
+from amaranth       import Elaboratable, Module, Signal, Mux
 
 from ..endpoint     import EndpointInterface
 from ...stream      import StreamInterface, USBOutStreamBoundaryDetector
@@ -416,8 +416,10 @@ class USBStreamOutEndpoint(Elaboratable):
 
         # Set the transfer active flag depending on whether we've just accepted a full packet.
         # Packets that are discarded (bad CRC, no room) or skipped don't affect the transfer.
+        # (At high speed, the response can be requested in the very cycle the packet's last byte is
+        # stored; so take that byte's verdict directly.)
         with m.If(data_response_requested & data_accepted):
-            m.d.usb += transfer_active.eq(packet_is_full)
+            m.d.usb += transfer_active.eq(Mux(fifo.write_en & rx_last, full_packet, packet_is_full))
 
         # We'll set the overflow flag if we're receiving data we don't have room for.
         with m.If(data_is_lost):
